@@ -1,6 +1,7 @@
 import GwModel.MergeDef
 import GwModel.Gen.Facts
 import GwModel.MergeSig
+import GwModel.MergeDirs
 /-! # C10 — Merging does not depend on service order or on the run -/
 namespace Props.C10
 open Mg Facts
@@ -62,5 +63,29 @@ theorem type_and_default_comparisons_are_symmetric (a b : Option Ms.Ty) (v w : O
       cases h2 : Ms.valuesEqual w v with
       | true => rw [(Ms.valuesEqual_iff w v).1 h2, (Ms.valuesEqual_iff v v).2 rfl] at h; cases h
       | false => rfl
+
+
+/-- **the directives applied to two declarations compare the same whichever comes first** (`Md.listsEqual`, the model
+    of mergeDirectiveListsEqual, which the fact `directiveListsBothWays` recognises by its `matched[]` bookkeeping) -/
+theorem applied_directives_compare_the_same_either_way {α : Type} [DecidableEq α] (l1 l2 : List α) :
+    Md.listsEqual l1 l2 = Md.listsEqual l2 l1 := Md.listsEqual_symm l1 l2
+
+/-- and what it decides has no direction: the same applications, each as many times -/
+theorem applied_directives_agree_iff_same_applications {α : Type} [DecidableEq α] (l1 l2 : List α) :
+    Md.listsEqual l1 l2 = true ↔ l1.Perm l2 := Md.listsEqual_iff l1 l2
+
+/-- a third service is judged alike against either of two services that agree -/
+theorem applied_directives_agreement_is_transitive {α : Type} [DecidableEq α] {l1 l2 l3 : List α}
+    (h12 : Md.listsEqual l1 l2 = true) (h23 : Md.listsEqual l2 l3 = true) : Md.listsEqual l1 l3 = true :=
+  Md.listsEqual_trans h12 h23
+
+/-- without the bookkeeping — every application of the first list only needs SOME equal one in the second — the
+    verdict depends on the order of the services (kernel-checked witness: `@r(1) @r(1)` against `@r(1) @r(2)`) -/
+theorem without_the_pairing_the_order_of_the_services_decides :
+    Md.listsEqualNoBookkeeping [1, 1] [1, 2] = true ∧ Md.listsEqualNoBookkeeping [1, 2] [1, 1] = false :=
+  Md.noBookkeeping_is_not_symmetric
+
+example : Md.listsEqual ["@r(n: 1)", "@s", "@r(n: 1)"] ["@s", "@r(n: 1)", "@r(n: 1)"] = true ∧
+          Md.listsEqual ["@r(n: 1)", "@r(n: 1)"] ["@r(n: 1)", "@r(n: 2)"] = false := by decide
 
 end Props.C10
